@@ -79,7 +79,8 @@ fn cmd_replay_normalize(args: &[String]) {
         let stream = l["stream"].as_array().unwrap();
         let r = writers::replay_normalize(objs, stream);
         let rec = json!({"id": l["id"], "inp": stream, "outs": r["outs"],
-                         "panic": r["panic"], "ref": l.get("ref")});
+                         "panic": r["panic"],
+                         "ref": l.get("ref").cloned().unwrap_or(json!([]))});
         writeln!(out, "{rec}").unwrap();
     }
 }
